@@ -232,6 +232,43 @@ func checkC16(c *Ctx) {
 			case op.IsIter():
 				okIdx := norm == "0x04|chain|IDX" || regexp.MustCompile(`^0x04\|chain\|0x[0-9a-f]{2}\|chain\|(u64|str\|u64|IDX|str\|IDX)$`).MatchString(norm)
 				r.Check(okIdx, "C16.key-schema", "reader:"+fname(f), c.pos(op.Site), "signature reader iterates prefix|chain|index", "signature reader iterates "+kinds+", expected prefix|chain|index")
+				// an index handed in by the caller is a whole store index (it ends in the tx's nonce / id), not a
+				// prefix of one: a scan under a token prefix also covers the other batches of the token (and of tokens
+				// whose id merely starts with it)
+				for pi, pt := range op.Key.Parts {
+					if pt.Kind != "param" || pi < 2 {
+						continue
+					}
+					var up func(fn *ssa.Function, par int, depth int)
+					up = func(fn *ssa.Function, par int, depth int) {
+						for _, e := range p.In[fn] {
+							if !live[e.Caller] {
+								continue
+							}
+							args := e.Site.Common().Args
+							if par < 0 || par >= len(args) {
+								continue
+							}
+							if ap, isPar := args[par].(*ssa.Parameter); isPar && depth < 3 {
+								// handed on: decided at the caller's callers
+								for i, q := range e.Caller.Params {
+									if q == ap {
+										up(e.Caller, i, depth+1)
+									}
+								}
+								continue
+							}
+							ak := p.KeyOf(args[par]).Kinds()
+							if len(ak) == 0 {
+								continue
+							}
+							last := ak[len(ak)-1]
+							r.Check(last != "str" && last != "chain", "C16.key-schema", "whole-index:"+fname(e.Caller), c.pos(e.Site.(ssa.Instruction)), "the signatures of one tx are addressed by its whole store index",
+								fname(e.Caller)+" addresses signatures by a prefix of a store index ("+strings.Join(ak, "|")+"): the scan also covers the signatures of other pending txs, whose confirmations are then lost or can be recorded twice")
+						}
+					}
+					up(f, pt.Param, 0)
+				}
 			default:
 				okParts := norm == "0x04|chain|IDX|addr"
 				detail := ""
